@@ -292,6 +292,11 @@ def run(ctx):
                                 val = (l[1] == LONG) if payload(at)[0] == "gt" else (l[1] == SHORT)
                                 if val != o:
                                     feas = False
+                        if tag(at) == "op" and payload(at)[0] == "discr" and isinstance(o, tuple):
+                            # `match side { Buy => .., Sell => .. }` / `match position.direction {..}` spell the same tests
+                            dv = ea.ev(kids(at)[0])
+                            if isinstance(dv, str) and ((o[0] == "variant" and dv != o[1]) or (o[0] == "other" and dv in o[1])):
+                                feas = False
                     if not feas:
                         continue
                     for s in em.emitted(q):
